@@ -75,7 +75,7 @@ def build(rng, spec, depth, tr, ctx):
         c2["nh"] += 1
         c2["own"] = c2.get("own", []) + [c2["nh"]]
         kids = [build(rng, spec, depth - 1, tr, c2)]
-        tr.nodes[idx - 1] = node("new", rng.randrange(spec.get("nident", 2)), rng.randrange(nv), rng.randrange(nv), kids)
+        tr.nodes[idx - 1] = node("new", spec.get("identbase", 0) + rng.randrange(spec.get("nident", 2)), rng.randrange(nv), rng.randrange(nv), kids)
     elif op == "fld":
         slot = rng.randrange(ctx["nh"]) + 1
         fld = rng.randrange(3)
@@ -155,6 +155,7 @@ def gen_program(rng, family="core", nfn=None):
         "lru": ["lru", "lru", "plain"],
         "struct": ["plain", "plain", "q2"],
         "structlru": ["lru", "lru", "plain"],
+        "structcoll": ["plain", "plain", "q2"],
         "spec": ["plain"],
         "intern": ["plain", "plain"],
         "accum": ["plain", "plain", "noeq", "q2"],
@@ -170,6 +171,7 @@ def gen_program(rng, family="core", nfn=None):
         "lru": ["in", "in", "call", "call"],
         "struct": ["in", "in", "call", "new", "new", "fld", "fld", "calls", "untr"],
         "structlru": ["in", "in", "call", "new", "new", "fld", "fld", "calls"],
+        "structcoll": ["in", "in", "in", "call", "new", "new", "new", "fld", "calls"],
         "spec": ["in", "in", "call", "new", "new", "fld", "calls", "spec", "spec"],
         "intern": ["in", "in", "call", "intern", "intern", "rdint", "calli"],
         "accum": ["in", "in", "call", "call", "acc", "acc"],
@@ -202,7 +204,8 @@ def gen_program(rng, family="core", nfn=None):
             "sfams": [3, 3, 1] if family == "spec" else [1, 2],
             "ikinds": [1, 1, 2, 3, 4] if family == "intern" else ([1, 1, 1, 1, 2, 2] if family == "churn" else [1, 2, 3, 4]),
             "nint": 5 if family == "churn" else 3,
-            "nident": 3 if family == "churn" else 2,
+            "nident": 3 if family in ("churn", "structcoll") else 2,
+            "identbase": 10 if family == "structcoll" else 0,
             "p_call_before_spec": 0.3 if family == "spec" else 0,
         }
         tr = Tree()
@@ -796,7 +799,7 @@ def gen_history(rng, prog, nops, family="core"):
         w["evict"] = 1
         w["get"] = 4
         w["synth"] = 3
-    if family in ("struct", "structlru", "spec", "mixed", "churn"):
+    if family in ("struct", "structlru", "structcoll", "spec", "mixed", "churn"):
         w["gets"] = 3
     if family == "churn":
         w["set"] = 8
